@@ -6,6 +6,7 @@ use super::{Stats, Tier};
 use crate::exec::{Ctx, StepResult};
 use crate::gen::{SizeMix, WriteMix};
 use crate::model::Model;
+use crate::blob::Algo;
 use crate::ops::*;
 
 fn c14_cfg(tier: Tier) -> ProgCfg {
@@ -115,6 +116,37 @@ fn c14_classify(t: &Trace, st: &mut Stats) -> bool {
     nt
 }
 
+/// A committed value, then rejected commits (size / integrity check) of values whose content
+/// files would be its directory neighbours (same `<aa>`, same `<aa>/<bb>`): whatever a rejected
+/// commit cleans up, the neighbours stay.
+fn c14_grid(_tier: Tier) -> Vec<Program> {
+    let mut out = Vec::new();
+    for algo in [Algo::Sha256, Algo::Sha1] {
+        let blobs = super::c09::neighbours(algo);
+        let keys: Vec<String> = vec!["kept".into(), "rejected".into()];
+        for fl in [Fl::Sync, Fl::Async] {
+            for other in 1..blobs.len() {
+                for (declare, integ) in [(Declare::Off(1), IntegDecl::None), (Declare::Off(-1), IntegDecl::None), (Declare::None, IntegDecl::WrongDigest), (Declare::Exact, IntegDecl::MultiAllWrong)] {
+                    for keyed in [true, false] {
+                        let mut w0 = WriteSpec::simple(Some(0), 0);
+                        w0.entry = WEntry::OneShotAlgo;
+                        w0.algo = algo;
+                        let mut w = WriteSpec::simple(if keyed { Some(1) } else { None }, other);
+                        w.entry = WEntry::Opts;
+                        w.algo = algo;
+                        w.chunks = vec![3];
+                        w.declare = declare;
+                        w.integ = integ;
+                        let steps = vec![Step { op: Op::Write(w0), fl: Fl::Sync }, Step { op: Op::Write(w), fl }, Step { op: Op::Read { key: 0 }, fl }];
+                        out.push(Program { keys: keys.clone(), blobs: blobs.clone(), steps });
+                    }
+                }
+            }
+        }
+    }
+    out
+}
+
 pub fn c14() -> ProgEngine {
     ProgEngine {
         id: "C14",
@@ -131,8 +163,8 @@ pub fn c14() -> ProgEngine {
         ],
         cfg: c14_cfg,
         strategy: None,
-        grid: no_grid,
-        grid_note: "",
+        grid: c14_grid,
+        grid_note: "a committed value followed by rejected commits of its directory neighbours",
         random: (2000, 40000),
         classify: c14_classify,
         sweep_every_step: true,
@@ -208,8 +240,8 @@ impl Engine for C14 {
         v.push("a commit that fails because a filesystem call fails counts as 'a failed commit' of the property's quantifier; faults on the unlink of the temp file itself are excluded".into());
         v
     }
-    fn exhaustive(&self, _tier: Tier) -> Vec<C14Case> {
-        let mut out = Vec::new();
+    fn exhaustive(&self, tier: Tier) -> Vec<C14Case> {
+        let mut out: Vec<C14Case> = self.inner.exhaustive(tier).into_iter().map(C14Case::Prog).collect();
         for prog in failed_commit_shapes() {
             for gate in 0..26 {
                 out.push(C14Case::FailedCommit { prog: prog.clone(), gate, errno: if gate % 2 == 0 { 5 } else { 28 } });
@@ -218,7 +250,9 @@ impl Engine for C14 {
         out
     }
     fn exhaustive_note(&self, _tier: Tier) -> String {
-        "10 write shapes x every mutating system call of the write failing once (EIO / ENOSPC alternating)".into()
+        "a committed value followed by rejected commits (size / integrity, keyed / by address, sync / async) of values that are its content-directory neighbours; \
+         10 write shapes x every mutating system call of the write failing once (EIO / ENOSPC alternating)"
+            .into()
     }
     fn random_cases(&self, tier: Tier) -> u32 {
         self.inner.random_cases(tier)
